@@ -849,3 +849,289 @@ def k2_parse_args(mir, rep, max_tokens=3):
     rep.samples.append({"query": "K2.parse_args", "paths": stats["paths"], "bound": "<= %d tokens over 11 symbolic token classes" % max_tokens,
                         "claim": "Err iff lexopt error / repeated -f or -t / invalid format name / unknown option; -V,--version,-h,--help exit(0) after writing to stdout only; to defaults to JSON"})
     return stats
+
+
+# -------------------------------------------------------------------------------------------------
+# K7: the reader-mode document loops of the library crate (behind Box<dyn Read>, out of Kani's reach)
+# -------------------------------------------------------------------------------------------------
+
+def _const_name(v):
+    return getattr(v, "mir_const", None) or v.__dict__.get("mir_const")
+
+
+def k7_loop(mir, rep, fn_pattern, label, max_docs=3):
+    """msgpack::transcode / json::transcode / yaml::transcode_reader: one transcode_from per document,
+    in order; a failure of the reader, the parser or the output ends the loop with Err; Ok only at a clean end."""
+    fn = mir.find(fn_pattern)
+    stats = {"paths": 0, "ok": 0, "err": 0, "docs": 0}
+
+    def h(ex, p, name, argv, dst, dst_type, cur_fn):
+        g = p.ghost
+        if name == "drop":
+            return None
+        if re.search(r"as Into<Input<'_>>>::into$", name):
+            r = fresh("input")
+            g["input"] = r
+            return [(disc(r) == X.VARIANTS.get("Input::Slice", 0), r), (disc(r) == X.VARIANTS.get("Input::Reader", 1), r)]
+        if re.search(r"BufRead>::fill_buf$", name):
+            n = g.get("fills", 0)
+            g["fills"] = n + 1
+            out = []
+            for kind in (["err", "empty"] if n >= max_docs else ["err", "empty", "data"]):
+                r = fresh("fill_" + kind)
+                if kind == "err":
+                    out.append((disc(r) == 1, r))
+                else:
+                    out.append((z3.And(disc(r) == 0, asint(proj(proj(r, "Ok.0"), "isempty")) == (1 if kind == "empty" else 0)), r))
+            p.trace.append(("fill_buf",))
+            return out
+        if re.search(r"<impl \[u8\]>::is_empty$", name):
+            r = fresh("isempty")
+            p.pc.append(asint(r) == asint(proj(argv[0], "isempty")))
+            if "slice_rest" in g or re.search(r"msgpack", fn.name):
+                # slice branch: the rest of the input shrinks; bound the number of chunks
+                pass
+            return r
+        if re.search(r"^next_value_size$|::next_value_size$", name):
+            n = g.get("sized", 0)
+            g["sized"] = n + 1
+            r = fresh("nvs")
+            p.trace.append(("next_value_size", _const_name(argv[1])))
+            return [(disc(r) == 0, r), (disc(r) == 1, r)]
+        if re.search(r"<impl \[u8\]>::split_at$", name):
+            r = fresh("split")
+            n = g.get("splits", 0)
+            g["splits"] = n + 1
+            # the rest is empty after at most max_docs chunks
+            if n + 1 >= max_docs:
+                p.pc.append(asint(proj(proj(r, "f1"), "isempty")) == 1)
+            else:
+                p.pc.append(z3.Or(asint(proj(proj(r, "f1"), "isempty")) == 0, asint(proj(proj(r, "f1"), "isempty")) == 1))
+            return r
+        if re.search(r"Deserializer::<.*>::(new|from_read_ref|from_reader|from_str)$", name):
+            p.trace.append(("de_new", re.search(r"::(\w+)$", name).group(1)))
+            return fresh("de")
+        if re.search(r"::set_max_depth$", name):
+            p.trace.append(("set_max_depth", _const_name(argv[1])))
+            return fresh("unit")
+        if re.search(r"Deserializer::<.*>::end$", name):
+            n = g.get("ends", 0)
+            g["ends"] = n + 1
+            r = fresh("end")
+            p.trace.append(("end", r))
+            if n >= max_docs:
+                p.pc.append(disc(r) == 0)
+                return r
+            return [(disc(r) == 0, r), (disc(r) == 1, r)]
+        if re.search(r"Result::<.*>::is_err$", name):
+            r = fresh("is_err")
+            p.pc.append(asint(r) == z3.If(disc(argv[0]) == 1, 1, 0))
+            return r
+        m = re.search(r"(Result|Option)::<.*>::(is_ok_and|is_some_and|is_none_or)::<", name)
+        if m:
+            # executed from the closure's own MIR
+            cm = re.findall(r"\{closure@[^}]*\}", name)
+            body = closure_by_type(mir, cm[-1])
+            res = argv[0]
+            yes_disc = 0 if m.group(1) == "Result" else 1
+            payload = proj(res, "Ok.0" if m.group(1) == "Result" else "Some.0")
+            out = []
+            other = fresh("combinator")
+            p0 = p.clone()
+            p0.pc.append(disc(res) != yes_disc)
+            if ex.feasible(p0):
+                out.append((z3.And(disc(res) != yes_disc, asint(other) == (1 if m.group(2) == "is_none_or" else 0)), other))
+            p1 = p.clone()
+            p1.pc.append(disc(res) == yes_disc)
+            if ex.feasible(p1):
+                results = []
+                q0 = p1.clone()
+                q0.env = {}
+                ex.run(body, q0, [argv[1], payload], lambda qp, how, value: results.append((qp, how, value)))
+                for qp, how, value in results:
+                    if how == "return":
+                        extra = qp.pc[len(p.pc):]
+                        out.append((z3.And(extra) if extra else z3.BoolVal(True), value))
+            return out
+        if re.search(r"Result::<.*>::is_ok$", name):
+            r = fresh("is_ok")
+            p.pc.append(asint(r) == z3.If(disc(argv[0]) == 0, 1, 0))
+            return r
+        if re.search(r"as Output>::transcode_(from|value)", name):
+            r = fresh("tf")
+            p.trace.append(("transcode_from", r))
+            return [(disc(r) == 0, r), (disc(r) == 1, r)]
+        if re.search(r"Encoder::<.*>::from_reader$", name):
+            r = fresh("enc")
+            p.trace.append(("from_reader", r))
+            return [(disc(r) == 0, r), (disc(r) == 1, r)]
+        if re.search(r"Chunker::<.*>::new$", name):
+            return fresh("chunker")
+        if re.search(r"as Iterator>::next$", name):
+            n = g.get("nexts", 0)
+            g["nexts"] = n + 1
+            out = []
+            for kind in (["none", "err"] if n >= max_docs else ["none", "err", "doc"]):
+                r = fresh("it_" + kind)
+                if kind == "none":
+                    out.append((disc(r) == 0, r))
+                elif kind == "err":
+                    out.append((z3.And(disc(r) == 1, disc(proj(r, "Some.0")) == 1), r))
+                else:
+                    out.append((z3.And(disc(r) == 1, disc(proj(r, "Some.0")) == 0), r))
+            p.trace.append(("chunk_next",))
+            return out
+        if re.search(r"(^|::)from_utf8$", name):
+            r = fresh("utf8")
+            return [(disc(r) == 0, r), (disc(r) == 1, r)]
+        if re.search(r"Document::content$", name):
+            p.trace.append(("content", argv[0]))
+            return fresh("content")
+        return None
+
+    ex = X.Exec(mir, h)
+
+    def fin(p, how, value):
+        stats["paths"] += 1
+        if how != "return":
+            if how not in ("dead", "unreachable"):
+                rep.bad("K7." + label, "document loop ends with %s" % how, {"kind": "loop"})
+            return
+        names = [e[0] for e in p.trace]
+        is_ok = ex.valid(p, disc(value) == 0)[0]
+        is_err = ex.valid(p, disc(value) == 1)[0]
+        stats["ok" if is_ok else "err"] += 1
+        stats["docs"] += names.count("transcode_from")
+        failures = []
+        for c in p.pc:
+            s = str(c)
+            if re.match(r"^disc\((fill_err|nvs|tf|enc|utf8)#\d+\) == 1$", s) or re.search(r"it_err#\d+", s) and "== 1" in s:
+                failures.append(s)
+        failed = bool(failures)
+        # a failed end() is not a failure: it means "another document follows" (json reader loop)
+        if failed and not is_err:
+            rep.bad("K7." + label, "a failure of the reader, the size calculator, the parser stream or the output is returned as Err, never swallowed",
+                    {"kind": "loop", "events": names[-8:]})
+        if not failed and not is_ok:
+            rep.bad("K7." + label, "without any failure the loop returns Ok at the clean end of input", {"kind": "loop", "events": names[-8:]})
+        # nothing happens after the first failure
+        for i, e in enumerate(p.trace):
+            if e[0] == "transcode_from" and ex.valid(p, disc(e[1]) == 1)[0]:
+                if any(n in ("transcode_from", "fill_buf", "de_new", "chunk_next", "end") for n in names[i + 1:]):
+                    rep.bad("K7." + label, "nothing is read or translated after the output failed", {"kind": "loop", "events": names})
+        # every rmp-serde deserializer gets the depth limit before it is used
+        if "msgpack" in fn.name:
+            for i, e in enumerate(p.trace):
+                if e[0] == "de_new":
+                    nxt = p.trace[i + 1] if i + 1 < len(p.trace) else None
+                    if not nxt or nxt[0] != "set_max_depth" or "DEPTH_LIMIT" not in str(nxt[1]):
+                        rep.bad("K7." + label, "every MessagePack deserializer gets set_max_depth(DEPTH_LIMIT) before use", {"kind": "loop", "next": str(nxt)})
+                if e[0] == "next_value_size" and "DEPTH_LIMIT" not in str(e[1]):
+                    rep.bad("K7." + label, "the size calculator is called with DEPTH_LIMIT", {"kind": "loop"})
+        # one transcode_from per document: between two of them the source must have been consulted
+        last = None
+        for e in p.trace:
+            if e[0] == "transcode_from":
+                if last == "transcode_from":
+                    rep.bad("K7." + label, "exactly one transcode_from per document", {"kind": "loop"})
+            if e[0] in ("transcode_from", "fill_buf", "end", "chunk_next", "next_value_size"):
+                last = e[0]
+    ex.run(fn, X.Path(), None, fin)
+    rep.absorb(ex)
+    if not (stats["ok"] and stats["err"] and stats["docs"]):
+        raise Inconclusive("vacuity: %s exploration did not reach every outcome (%s)" % (label, stats))
+    rep.witnesses.append("%s: %d paths (%d Ok, %d Err), %d transcode_from calls, <= %d documents" % (label, stats["paths"], stats["ok"], stats["err"], stats["docs"], max_docs))
+    rep.samples.append({"query": "K7." + label, "paths": stats["paths"], "bound": "<= %d documents per run" % max_docs,
+                        "claim": "one transcode_from per document; reader/parser/output failure => Err and nothing afterwards; Ok only at a clean end; (MessagePack) set_max_depth(DEPTH_LIMIT) before use"})
+    return stats
+
+
+# -------------------------------------------------------------------------------------------------
+# K8: Encoder::from_reader - the detector sees four bytes taken from the reader itself (for every
+#     windowing, because io::copy loops until Take is exhausted) and they are chained back in front
+# -------------------------------------------------------------------------------------------------
+
+def k8_from_reader(mir, rep):
+    fn = mir.find(r"encoding::<impl.*>::from_reader$")
+    info = {}
+    stats = {"paths": 0, "ok": 0, "err": 0}
+
+    def note(v, d):
+        info[str(v)] = d
+        return v
+
+    def h(ex, p, name, argv, dst, dst_type, cur_fn):
+        if name == "drop":
+            return None
+        if re.search(r"ArrayBuffer::<.*>::new$", name):
+            return note(fresh("prefix"), {"kind": "prefix"})
+        if re.search(r"Read>::by_ref$", name):
+            return argv[0]
+        if re.search(r"Read>::take$", name):
+            lim = None
+            for (k, c), v in ex.consts.items():
+                if v is argv[1]:
+                    lim = c
+            p.trace.append(("take", argv[0], argv[1]))
+            return note(fresh("take"), {"kind": "take", "of": argv[0], "limit": argv[1]})
+        if re.search(r"(^|::)io::copy::<", name) or re.search(r"^std::io::copy", name):
+            p.trace.append(("copy", info.get(str(argv[0])), info.get(str(argv[1])), argv[0], argv[1]))
+            r = fresh("copied")
+            return [(disc(r) == 0, r), (disc(r) == 1, r)]
+        if re.search(r"ArrayBuffer::<.*>::unread$", name):
+            return note(fresh("unread"), {"kind": "unread", "of": argv[0]})
+        if re.search(r"Encoding::detect$", name):
+            p.trace.append(("detect", info.get(str(argv[0])), argv[0]))
+            return note(fresh("encoding"), {"kind": "encoding"})
+        if re.search(r"Read>::chain::<", name):
+            p.trace.append(("chain", argv[0], argv[1]))
+            return note(fresh("chain"), {"kind": "chain", "first": argv[0], "second": argv[1]})
+        if re.search(r"Encoder::<.*>::new$", name):
+            p.trace.append(("encoder_new", info.get(str(argv[0])), info.get(str(argv[1])), argv[0]))
+            return fresh("encoder")
+        return None
+
+    ex = X.Exec(mir, h)
+    reader = fresh("reader")
+
+    def fin(p, how, value):
+        stats["paths"] += 1
+        if how != "return":
+            return
+        tr = {e[0]: e for e in p.trace}
+        copy = tr.get("copy")
+        copy_failed = any(re.match(r"^disc\(copied#\d+\) == 1$", str(c)) for c in p.pc)
+        if copy_failed and not ex.valid(p, disc(value) == 1)[0]:
+            rep.bad("K8.from_reader", "a reader failure while peeking is returned as Err", {"kind": "from_reader"})
+            return
+        if ex.valid(p, disc(value) == 1)[0]:
+            stats["err"] += 1
+            return
+        stats["ok"] += 1
+        good = True
+        why = ""
+        if not copy or not copy[1] or copy[1].get("kind") != "take" or not copy[2] or copy[2].get("kind") != "prefix":
+            good, why = False, "the peek does not copy from reader.take(..) into the prefix buffer until the limit is reached"
+        elif not ex.valid(p, copy[1]["of"] == reader)[0]:
+            good, why = False, "the peek does not read from the reader itself"
+        elif not ex.valid(p, asint(copy[1]["limit"]) == 4)[0] and "DETECT_LEN" not in str(getattr(copy[1]["limit"], "mir_const", "")) and "DETECT_LEN" not in str(copy[1]["limit"].__dict__.get("mir_const", "")):
+            good, why = False, "the peek is not limited to Encoding::DETECT_LEN bytes"
+        det = tr.get("detect")
+        if good and (not det or not det[1] or det[1].get("kind") != "unread" or not ex.valid(p, det[1]["of"] == copy[4])[0]):
+            good, why = False, "the detector is not given the bytes that were peeked into the prefix buffer"
+        ch = tr.get("chain")
+        if good and (not ch or not ex.valid(p, z3.And(ch[1] == copy[4], ch[2] == reader))[0]):
+            good, why = False, "the peeked bytes are not chained back in front of the rest of the reader"
+        en = tr.get("encoder_new")
+        if good and (not en or not en[1] or en[1].get("kind") != "chain" or not en[2] or en[2].get("kind") != "encoding"):
+            good, why = False, "the encoder is not built over prefix.chain(reader) with the detected encoding"
+        if not good:
+            rep.bad("K8.from_reader", "encoding detection peeks exactly DETECT_LEN bytes through io::copy(reader.take(..)) - i.e. for every windowing of the source - and chains them back: " + why,
+                    {"kind": "from_reader"})
+    ex.run(fn, X.Path(), [reader], fin)
+    rep.absorb(ex)
+    if not stats["ok"]:
+        raise Inconclusive("vacuity: from_reader exploration did not reach the Ok outcome (%s)" % stats)
+    rep.witnesses.append("Encoder::from_reader: %d paths (%d Ok, %d Err)" % (stats["paths"], stats["ok"], stats["err"]))
+    rep.samples.append({"query": "K8.from_reader", "paths": stats["paths"],
+                        "claim": "detect(prefix.unread()) where prefix was filled by io::copy(reader.by_ref().take(DETECT_LEN)); Encoder::new(prefix.chain(reader), detected); copy failure => Err"})
